@@ -1,7 +1,7 @@
 CONSTANTS
-  Impl = "intended"
-  ReadImpl = "intended"
-  EofWithData = TRUE
+  Impl = "current"
+  ReadImpl = "asis"
+  EofWithData = FALSE
   MaxNalLen = 3
   MaxChunk = 3
   HdrSyms = {"S", "H", "Z", "O"}
